@@ -1,0 +1,6 @@
+//go:build verif
+
+package chunk
+
+// VerifMaxMessageSize exposes the unexported size budget of one chunk (chunker.go).
+const VerifMaxMessageSize = maxMessageSize
